@@ -5,6 +5,7 @@ package ice
 // C05 — role conflicts resolve by tie-breaker into opposite roles (RFC 8445 §7.3.1.1).
 
 import (
+	"sync/atomic"
 	"context"
 	"fmt"
 	"strings"
@@ -88,6 +89,17 @@ func TestVerif_C05_RoleConflictSolo(t *testing.T) {
 		preConnected := rapid.IntRange(0, 3).Draw(rt, "preConnected") == 0
 		lite := rapid.IntRange(0, 3).Draw(rt, "lite") == 0
 		cfg := simAgentConfig{controlling: controlling, lite: lite, maxBinding: 7, disconnected: time.Hour, keepalive: 2 * time.Second, explicitTimeout: true}
+		// optionally an application binding-request handler that approves everything it is shown: a
+		// role-conflicting request is not a connectivity check, so the handler must not even see it
+		withHandler := rapid.IntRange(0, 3).Draw(rt, "bindingRequestHandler") == 0
+		var handlerCalls atomic.Int32
+		if withHandler {
+			cfg.extra = append(cfg.extra, WithBindingRequestHandler(func(*stun.Message, Candidate, Candidate, *CandidatePair) bool {
+				handlerCalls.Add(1)
+
+				return true
+			}))
+		}
 		second := simKindSrflx
 		if lite {
 			second = simKindHost // lite agents have host candidates only
@@ -142,6 +154,7 @@ func TestVerif_C05_RoleConflictSolo(t *testing.T) {
 		s.w.inflight = nil
 		s.w.mu.Unlock()
 		selBefore := pairKey(s.ag.selectedPair())
+		handlerCallsBefore := handlerCalls.Load()
 		pairsBefore := s.ag.pairSnapshot()
 		from := s.w.logLen()
 		role := ownRole
@@ -163,7 +176,7 @@ func TestVerif_C05_RoleConflictSolo(t *testing.T) {
 				boundary = true
 			}
 		}
-		st.Record(vfHashStr(desc), sameRole && (adjacent || boundary), fmt.Sprintf("sameRole:%v", sameRole), fmt.Sprintf("adjacent:%v", adjacent), fmt.Sprintf("lite:%v", lite))
+		st.Record(vfHashStr(desc), sameRole && (adjacent || boundary), fmt.Sprintf("sameRole:%v", sameRole), fmt.Sprintf("adjacent:%v", adjacent), fmt.Sprintf("lite:%v", lite), fmt.Sprintf("handler:%v", withHandler))
 		if sameRole && adjacent && st.WantSample() {
 			st.Sample(func() string { return desc })
 		}
@@ -189,6 +202,11 @@ func TestVerif_C05_RoleConflictSolo(t *testing.T) {
 		keep := (controlling && T >= Tp) || (!controlling && T < Tp)
 		if nSucc != 0 {
 			st.Fail(rt, "C05/conflict/success-response-sent", "%s: a success response was sent for a role-conflicting request", desc)
+		}
+		if withHandler {
+			if n := handlerCallsBefore; handlerCalls.Load() != n {
+				st.Fail(rt, "C05/conflict/shown-to-binding-request-handler", "%s: the application handler was called for a role-conflicting request", desc)
+			}
 		}
 		if sel := pairKey(s.ag.selectedPair()); sel != selBefore {
 			st.Fail(rt, "C05/conflict/selection-changed", "%s: selection %q -> %q", desc, selBefore, sel)
